@@ -27,7 +27,7 @@ BOUNDS = {
 SCOPE = "Weights w_i = exp(log_w_i) are symbolic non-negative reals (zeros = -inf log-weights allowed, not all zero, not normalised)."
 ASSUMPTIONS = [
     "np.random.rand returns values in [0,1) (each an independent uniform draw: numpy's contract)",
-    "np.random.choice(n, size, p, replace=True) samples indices with the probabilities it is handed (numpy's contract); the check decides what it is handed",
+    "np.random.choice(n, size, p, replace=True) samples indices with the probabilities it is handed (numpy's contract); the check decides what it is handed; outcome j of the generator stands for the nested sample that a call cycling through all outcomes returns at position j",
 ]
 OUTSIDE = ["selection frequencies over many draws (follow from the decided acceptance region plus numpy's contract)", "weight vectors longer than the bound"]
 
